@@ -15,7 +15,30 @@ Open Scope N_scope.
 
 Module RS := FlacReaders.Spec.
 
-(* the part of WrittenEdited.v that does not mention the decoded blocks *)
+(* the part of WrittenEdited.v that does not mention the decoded blocks, for any finished file with a typed view of its
+   metadata (e2emeta: sample_/byte_/channel_writer_file_typed) *)
+Lemma edited_same_decoding_typed : forall (u : list N -> bool),
+  (forall s, Forall (fun b => b < 128) s -> u s = true) ->
+  forall (f : finished) meta',
+  f_stream f = meta' ++ frames_bytes (f_enc f) ->
+  FlacMeta.BlockList.write_blocks (FlacMeta.Blocks.BStreaminfo (convM (f_si f)) :: map convB (f_blocks f)) = Ok meta' ->
+  Forall (FlacMeta.Blocks_level.ty_block u) (FlacMeta.Blocks.BStreaminfo (convM (f_si f)) :: map convB (f_blocks f)) ->
+  Forall FlacMeta.Blocks_level.canon_block (FlacMeta.Blocks.BStreaminfo (convM (f_si f)) :: map convB (f_blocks f)) ->
+  forall edits fn rs,
+    Forall (typed_edit u) edits -> Forall (U.keeps_streaminfo FlacMeta.Blocks.block) edits ->
+    U.run_edits FlacMeta.Blocks.block psize_r ser_r uclass_r (read_blocks_r u) edits (f_stream f) = (fn, rs) ->
+    FlacCodec.Stream.dec_stream fn = FlacCodec.Stream.dec_stream (f_stream f) /\
+    FlacCodec.Spec.spec_stream fn = FlacCodec.Spec.spec_stream (f_stream f) /\
+    exists meta_n, fn = meta_n ++ frames_bytes (f_enc f).
+Proof.
+  intros u Hu f meta' Hs Hw T C edits fn rs K KS Hre.
+  pose proof (file_ok_written u Hu _ _ meta' (frames_bytes (f_enc f)) T C Hw) as I0. rewrite <- Hs in I0.
+  pose proof (run_edits_file_ok u Hu edits K KS _ _ _ fn rs I0 Hre) as [(mn & bn & -> & _) Mn].
+  destruct I0 as [_ M0].
+  split; [unfold FlacCodec.Stream.dec_stream; rewrite Mn, M0; reflexivity|].
+  split; [unfold FlacCodec.Spec.spec_stream; rewrite Mn, M0; reflexivity|exists mn; reflexivity].
+Qed.
+
 Lemma edited_same_decoding : forall (u : list N -> bool),
   (forall s, Forall (fun b => b < 128) s -> u s = true) ->
   forall o L md5, (forall l, length (md5 l) = 16%nat) -> (forall l, Forall (fun b => b < 256) (md5 l)) ->
@@ -30,14 +53,10 @@ Lemma edited_same_decoding : forall (u : list N -> bool),
     FlacCodec.Spec.spec_stream fn = FlacCodec.Spec.spec_stream (f_stream f) /\
     exists meta_n, fn = meta_n ++ frames_bytes (f_enc f).
 Proof.
-  intros u Hu o L md5 Hmd5 Hmd5b p rate bps ch wo total w chunks f Hwf Hpl Hs0 Hnew Hrun Hfit edits fn rs K KS Hre.
+  intros u Hu o L md5 Hmd5 Hmd5b p rate bps ch wo total w chunks f Hwf Hpl Hs0 Hnew Hrun Hfit.
   destruct (sample_writer_file_typed (FlacE2E.E2E.encB o L rate bps) md5 Hmd5 Hmd5b p u wo rate bps ch total w chunks f
               Hwf Hpl Hs0 Hnew Hrun Hfit) as (meta' & Hs & Hw & T & C).
-  pose proof (file_ok_written u Hu _ _ meta' (frames_bytes (f_enc f)) T C Hw) as I0. rewrite <- Hs in I0.
-  pose proof (run_edits_file_ok u Hu edits K KS _ _ _ fn rs I0 Hre) as [(mn & bn & -> & _) Mn].
-  destruct I0 as [_ M0].
-  split; [unfold FlacCodec.Stream.dec_stream; rewrite Mn, M0; reflexivity|].
-  split; [unfold FlacCodec.Spec.spec_stream; rewrite Mn, M0; reflexivity|exists mn; reflexivity].
+  exact (edited_same_decoding_typed u Hu f meta' Hs Hw T C).
 Qed.
 
 Theorem written_edited_then_read : forall (u : list N -> bool),
@@ -78,4 +97,59 @@ Proof.
   intros edits fn rs K KS Hre.
   destruct (edited_same_decoding u Hu o L md5 Hmd5 Hmd5b p rate bps ch wo total w chunks f Hwf Hpl Hs0 Hnew Hrun Hfit edits fn rs K KS Hre)
     as (Ed & _). rewrite Ed. exact Hdec.
+Qed.
+
+(* ---- FlacByteWriter -> edits -> FlacByteReader *)
+From FlacWriters Require Import Bytes_proofs Writers_proofs Cross_proofs.
+From FlacE2E Require Transfer ByteE2E.
+
+Theorem byte_written_edited_then_read : forall (u : list N -> bool),
+  (forall s, Forall (fun b => b < 128) s -> u s = true) ->
+  forall o L md5, (forall l, length (md5 l) = 16%nat) -> (forall l, Forall (fun b => b < 256) (md5 l)) ->
+  forall p rate bps ch, rate < 2 ^ 20 -> 1 <= bps -> bps <= 32 -> 1 <= ch -> ch <= 8 ->
+  forall en wo total w (chunks : list (list N)) rp,
+  options_wf wo -> Forall plain (o_metadata wo) -> seektables (o_metadata wo) = 0%nat ->
+  byte_new p en [] wo rate bps ch total = Ok w ->
+  Forall byte_ok (concat chunks) ->
+  let nb := bytes_per_sample_of bps in
+  let samples := FlacE2E.ByteE2E.decode_bytes en (N.to_nat nb) (concat chunks) in
+  forallb (FlacCodec.Wf.fits bps) samples = true ->
+  let W := N.of_nat (length samples) / ch in
+  let written := firstn (N.to_nat nb * (N.to_nat ch * (length samples / N.to_nat ch))) (concat chunks) in
+  1 <= W -> N.of_nat (length samples) < 2 ^ 36 ->
+  match total with Some T => T = nb * ch * W | None => True end ->
+  exists f blocks,
+    byte_run (FlacE2E.E2E.encB o L rate bps) md5 p w chunks = Ok f /\
+    (forall edits fn rs,
+      Forall (typed_edit u) edits -> Forall (U.keeps_streaminfo FlacMeta.Blocks.block) edits ->
+      U.run_edits FlacMeta.Blocks.block psize_r ser_r uclass_r (read_blocks_r u) edits (f_stream f) = (fn, rs) ->
+      FlacCodec.Stream.dec_stream fn =
+        Some (FlacE2E.Bridge.conv_si (f_si f), map FlacCodec.Stream.interleave_frame blocks, FlacCodec.Stream.EndEof)) /\
+    let F := FlacE2E.ReadBridge.file_of_blocks blocks ch bps (Some (FlacCodec.Enc_proofs.blocks_samples blocks)) (FlacE2E.ReadersE2E.conv_endian en) rp in
+    RS.valid_file F /\ RS.pcm_bytes F = written /\
+    forall ops, RS.no_bseek ops -> Forall RS.bop_ok (snd (FlacReaders.Seek.byte_run F ops)) ->
+      let atr := map (RS.abs_b F) (snd (FlacReaders.Seek.byte_run F ops)) in
+      Forall (RS.cur_ok written) atr /\ RS.chained 0 atr (RS.bpos F (fst (FlacReaders.Seek.byte_run F ops))) /\
+      RS.exactly_once written atr.
+Proof.
+  intros u Hu o L md5 Hmd5 Hmd5b p rate bps ch Hrate Hb1 Hb32 Hc1 Hc8 en wo total w chunks rp Hwf Hpl Hs0 Hnew Hbytes nb samples Hfits W written HW Hlen Htot.
+  destruct (FlacE2E.ReadersE2E.written_bytes_are_read o L md5 Hmd5 p rate bps en wo ch total w chunks rp Hwf Hnew Hbytes Hfits HW Hlen Htot)
+    as (f & blocks & Hrun & Hdec & HF).
+  exists f, blocks. split; [exact Hrun|]. split; [|exact HF].
+  (* counters_fit, through the equal sample-writer run *)
+  destruct (FlacE2E.Transfer.byte_new_sample_new p en wo rate bps ch total w Hnew) as (ts & ws & Hs & Et).
+  pose proof (byte_writer_is_sample_writer (FlacE2E.E2E.encB o L rate bps) md5 p en wo rate bps ch total ts w ws chunks Hwf Hnew Hs Et Hbytes) as Eq.
+  fold nb in Eq. change (decoded en (N.to_nat nb) (concat chunks)) with samples in Eq.
+  assert (Ec : concat [samples] = samples) by (cbn [concat]; apply app_nil_r).
+  assert (Hnb : 1 <= nb) by (unfold nb, bytes_per_sample_of; apply N.div_le_lower_bound; lia).
+  assert (Hts : match ts with Some T => T = ch * W | None => True end).
+  { destruct ts as [T|]; [|exact I]. subst total. cbn [option_map] in Htot. fold nb in Htot. nia. }
+  pose proof (FlacE2E.Success.sample_run_succeeds o L md5 Hmd5 p rate bps ch Hrate Hb1 Hb32 Hc1 Hc8 wo ts ws [samples] Hwf Hs) as K.
+  rewrite Ec in K. destruct (K Hfits HW Hlen Hts) as (f' & Hrun' & Hfit).
+  assert (Ef : f' = f) by (rewrite Eq, Hrun' in Hrun; inversion Hrun; reflexivity). subst f'.
+  destruct (byte_writer_file_typed (FlacE2E.E2E.encB o L rate bps) md5 p Hmd5 Hmd5b u en wo rate bps ch total w chunks f
+              Hwf Hpl Hs0 Hnew Hbytes Hrun Hfit) as (meta' & Hst & Hw & T & C).
+  intros edits fn rs K' KS Hre.
+  destruct (edited_same_decoding_typed u Hu f meta' Hst Hw T C edits fn rs K' KS Hre) as (Ed & _).
+  rewrite Ed. exact Hdec.
 Qed.
